@@ -165,6 +165,59 @@ def emit() -> str:
     lg_reject = isinstance(lgb[2], ast.If) and ast.unparse(lgb[2].test) == "not user" and ast.unparse(lgb[2].body[-1]) == "return None"
     lg_limit = any(isinstance(n, ast.If) and ast.unparse(n.test) == "not self.remote_session_limit_reached" for n in ast.walk(lg))
 
+    # ---- direct requests of the session manager, enable_user, zero-duration power changes
+    uirm = find_method(usm, "_init_request_manager")
+    rl = next((n for n in ast.walk(uirm) if isinstance(n, ast.FunctionDef) and n.name == "_remote_login"), None)
+    if rl is None:
+        raise ValueError("UserSessionManager._init_request_manager: _remote_login not found")
+    usm_login_bool = any(isinstance(n, ast.Assign) and ast.unparse(n) ==
+                         "response = RequestResponse.from_bool(self.remote_login(username, password, remote_ip_address) is not None)"
+                         for n in ast.walk(rl))
+    usm_reqs = {}
+    for n in ast.walk(uirm):
+        if isinstance(n, ast.Call) and ast.unparse(n.func) == "rm.add_request":
+            kw = {k.arg: k.value for k in n.args[1].keywords}
+            usm_reqs[n.args[0].value] = ast.unparse(kw["func"])
+    if sorted(usm_reqs) != ["remote_login", "remote_logout"]:
+        raise ValueError(f"UserSessionManager requests changed: {sorted(usm_reqs)}")
+    usm_logout_handler = usm_reqs["remote_logout"] == \
+        "lambda request, context: RequestResponse.from_bool(self.remote_logout(remote_session_id=request[0]))"
+    lo_pops = [ast.unparse(n) for n in ast.walk(lo) if isinstance(n, ast.Call) and ast.unparse(n.func) == "self.remote_sessions.pop"]
+    logout_pop_tolerant = lo_pops == ["self.remote_sessions.pop(remote_session_id, None)"]
+    lo_disc_first = False
+    for n in ast.walk(lo):
+        if isinstance(n, ast.If) and ast.unparse(n.test) == "not local and remote_session_id":
+            body = [ast.unparse(x) for x in n.body]
+            lo_disc_first = body == ["self.parent.terminal._disconnect(remote_session_id)",
+                                     "session = self.remote_sessions.pop(remote_session_id, None)"]
+    um_reqs = []
+    for n in ast.walk(find_method(um, "_init_request_manager")):
+        if isinstance(n, ast.Call) and ast.unparse(n.func) == "rm.add_request":
+            um_reqs.append(n.args[0].value)
+    en = _body(find_method(um, "enable_user"))
+    enable_shape = (isinstance(en[0], ast.If) and ast.unparse(en[0].test) == "username in self.users and self.users[username].disabled"
+                    and ast.unparse(en[0].body[0]) == "self.users[username].disabled = False"
+                    and ast.unparse(en[0].body[-1]) == "return True" and ast.unparse(en[-1]) == "return False")
+    node = class_def(base, "Node")
+
+    def _zero_branch(meth: str, test: str) -> List[str]:
+        st = _body(find_method(node, meth))[0]
+        if not (isinstance(st, ast.If) and ast.unparse(st.test) == test):
+            raise ValueError(f"Node.{meth}: first statement is not `if {test}`")
+        out = []
+        for x in st.body:
+            if isinstance(x, ast.Expr) and ast.unparse(x).startswith("self.sys_log"):
+                continue
+            if isinstance(x, ast.For):
+                out.append("for: " + "; ".join(ast.unparse(y) for y in x.body))
+            elif isinstance(x, ast.If):
+                out.append("if " + ast.unparse(x.test) + ": " + "; ".join(ast.unparse(y) for y in x.body))
+            else:
+                out.append(ast.unparse(x))
+        return out
+    off0 = _zero_branch("power_off", "self.config.shut_down_duration <= 0")
+    on0 = _zero_branch("power_on", "self.config.start_up_duration <= 0")
+
     # ---- Terminal: command execution is guarded by the session check
     recv = find_method(term, "receive")
     guarded_exec = False
@@ -266,6 +319,16 @@ def adminsExpr : String := "{admins_expr}"
 def disableGuarded : Bool := {_b(dis_guard)}
 def disableRefusesLastAdmin : Bool := {_b(dis_ok)}
 def userDeletions : List String := {_lean_list(deletes)}
+def usmLoginAnswersBool : Bool := {_b(usm_login_bool)}
+def usmLogoutHandler : Bool := {_b(usm_logout_handler)}
+def logoutPopTolerant : Bool := {_b(logout_pop_tolerant)}
+def logoutDisconnectsThenPops : Bool := {_b(lo_disc_first)}
+/-- requests registered by UserManager (enable_user is not among them: Python API only) -/
+def userManagerRequests : List String := {_lean_list(um_reqs)}
+def enableUserShape : Bool := {_b(enable_shape)}
+/-- the zero-duration branches of Node.power_off / Node.power_on, statement by statement (log lines dropped) -/
+def powerOffZero : List String := {_lean_list(off0)}
+def powerOnZero : List String := {_lean_list(on0)}
 def loginGuarded : Bool := {_b(lg_guard)}
 def loginAuthenticates : Bool := {_b(lg_auth and lg_reject)}
 def loginChecksLimit : Bool := {_b(lg_limit)}
